@@ -149,6 +149,8 @@ def jobs(tier, seed):
                          "weight": 8 if tier == "quick" else 30, "cpu_cap": 1500, "wall_cap": 2400})
         for an, sa in A_MENU:
             for bn, sb in B_MENU:
+                if tier == "quick" and an == "refdef":
+                    continue  # a free character inside a reference definition costs > 20 CPU-s per path: thorough tier
                 if tier == "quick":
                     # one free character (in A), B concrete
                     if an == "para" and bn == "table":
@@ -184,7 +186,11 @@ def thorough_extra(seed):
             # one free character on each side
             jobs.append({"harness": "concat", "params": {"cfg": JS, "a": sa, "b": sb, "spec": spec, "name": f"{an}+{bn}"}, "weight": 10})
     for an, sa in A_MENU:
-        jobs.append({"harness": "concat", "params": {"cfg": CM, "a": sa, "b": ["y\n"], "spec": spec, "name": f"{an}+para-cm"}, "weight": 2})
+        jobs.append({"harness": "concat", "params": {"cfg": CM, "a": sa, "b": ["y\n"], "spec": spec, "name": f"{an}+para-cm"}, "weight": 2, "path_cap": 120})
+    for bn in ("para", "list"):
+        sb2 = [p if isinstance(p, str) else "y" for p in dict(B_MENU)[bn]]
+        jobs.append({"harness": "concat", "params": {"cfg": JS, "a": dict(A_MENU)["refdef"], "b": sb2, "spec": spec, "name": f"refdef+{bn}"}, "weight": 6,
+                     "path_cap": 120})
     for j in jobs:
         j["cpu_cap"] = 3000
         j["wall_cap"] = 4000
